@@ -175,7 +175,7 @@ func genC19(seed uint64, index int, tier string) *run.Plan {
 	}
 	alter := 0
 	if g.Intn(5) != 0 {
-		alter = 1 + g.Intn(19)
+		alter = 1 + g.Intn(20)
 	}
 	p.Faults = append(p.Faults, run.Fault{Kind: "alter", A: alter, B: g.Intn(1 << 16), C: g.Intn(8)})
 	// checks: first delivery, then optional replays
@@ -381,6 +381,22 @@ func execC19(t *testing.T, w *core.World, p *run.Plan, r *run.Result) {
 			resign(apriv)
 		case 19: // no state-init at all
 			proof.Proof.StateInit = ""
+		case 20:
+			// a contract whose code is in the server's table of wallet codes but whose data layout it cannot read
+			// (the lockup wallet): no key can be taken from it. The attacker does not hold any key at all and
+			// forges a signature for the all-zero key (a small-order point).
+			lock := (&hcell{}).u(0b00110, 5).ref(fromLib(wallet.GetCodeByVer(wallet.V3R2Lockup))).ref((&hcell{}).u(uint64(aB), 32).bytes(apub).u(0, 64))
+			lock.compute()
+			proof.Address = ton.AccountID{Workchain: int32(id.wc), Address: lock.hash}.ToRaw()
+			proof.Proof.StateInit = c19stateInitB64(lock)
+			a, _ := ton.ParseAccountID(proof.Address)
+			msg := c19message(a.Workchain, a.Address[:], proof.Proof.Domain, proof.Proof.Timestamp, proof.Proof.Payload)
+			if sig, ok := forgeSmallOrder(msg, core.NewRng(core.Mix(p.Seed, uint64(aB)))); ok {
+				proof.Proof.Signature = base64.StdEncoding.EncodeToString(sig)
+				w.Probe("small-order-forgery-built")
+			} else {
+				w.Probe("small-order-forgery-failed")
+			}
 		}
 		w.Logf("proof delivered alter=%d", alter)
 	})
@@ -599,10 +615,10 @@ func stripNums(s string) string {
 func init() {
 	run.Register(&run.Engine{ID: "C19", Gen: genC19, Exec: execC19, Meta: run.Meta{
 		Technique:   "deterministic simulation: three-party timed protocol (wallet, adversarial channel, server) plus a failing/lying get-method executor under one simulated clock; reference acceptance model as oracle",
-		Rule:        "one run = a history: the server issues payloads, a wallet (version x key x workchain, clock skew up to +-10 min) signs after a drawn delay, the channel delivers the proof unaltered or with one of 19 alterations (field substitutions, bit flips, attacker-built state-inits incl. no code / no data / unknown contract / multi-root / garbage, wrong-length payload or signature, full attacker proof), the server checks it 1-3 times at drawn instants around the payload/proof lifetimes, possibly at a server with another secret or other lifetimes, with an executor that answers with the wallet's key, another key, an error, a malformed stack, a short key or a failure exit code, possibly after a delay. Non-trivial = at least one check ran; distinct = distinct event-log digest. Abstract state = (alteration, executor mode, server, reference verdict and reason).",
+		Rule:        "one run = a history: the server issues payloads, a wallet (version x key x workchain, clock skew up to +-10 min) signs after a drawn delay, the channel delivers the proof unaltered or with one of 20 alterations (field substitutions, bit flips, attacker-built state-inits incl. no code / no data / unknown contract / multi-root / garbage, wrong-length payload or signature, full attacker proof), the server checks it 1-3 times at drawn instants around the payload/proof lifetimes, possibly at a server with another secret or other lifetimes, with an executor that answers with the wallet's key, another key, an error, a malformed stack, a short key or a failure exit code, possibly after a delay. Non-trivial = at least one check ran; distinct = distinct event-log digest. Abstract state = (alteration, executor mode, server, reference verdict and reason).",
 		Real:        []string{"tonconnect.Server: GeneratePayload, CheckPayload, CheckProof, ParseStateInit, getWalletPubKey", "tonconnect.CreateSignedProof", "abi.GetPublicKey decoding of the executor's stack", "wallet.GenerateStateInit, ton.ParseAccountID, boc/tlb decoders underneath"},
 		Simulated:   []string{"clock (testing/synctest) incl. wallet clock skew", "the channel between wallet and server (adversary)", "the abi.Executor party", "crypto/rand (seeded)"},
-		Assumptions: []string{"within +-1 s of an expiry boundary the verdict is not judged (the implementation truncates to Unix seconds; the property does not fix the rounding)", "proof timestamps in the future are not judged as expired", "Ed25519 small-order public keys (forgeries for a key the attacker does not hold) are outside the alteration set", "boc.DeserializeBocBase64 is trusted to enumerate the cells of a state-init; the key offset per wallet version is laid out by the harness"},
+		Assumptions: []string{"within +-1 s of an expiry boundary the verdict is not judged (the implementation truncates to Unix seconds; the property does not fix the rounding)", "proof timestamps in the future are not judged as expired", "alteration 20 forges a signature for the all-zero key (an Ed25519 point of order 4) with github.com/oasisprotocol/curve25519-voi; other small-order keys are not tried", "boc.DeserializeBocBase64 is trusted to enumerate the cells of a state-init; the key offset per wallet version is laid out by the harness"},
 	}})
 }
 
